@@ -318,6 +318,9 @@ def in_domain(rng, spec, m=None, n=None):
     fam = spec_family(spec)
     small = _is_simus(spec) or fam == "rank_reversal"
     kw = dict(max_m=5 if small else 9, max_n=3 if small else 5, ties=rng.choice([0.0, 0.3]), dups=0.0 if fam == "rank_reversal" else 0.15)
+    if fam == "rank_reversal":
+        # two equal rows leave the checker no room to worsen one of them (refused since fix F8; an endless loop before it)
+        kw.update(ties=0.0, min_n=2)
     if m:
         kw["m"] = m
     if n:
@@ -562,6 +565,7 @@ def _fp_changes(a, b):
 
 
 _PRELOADED = False
+CHILD_TIMEOUT = 120  # seconds for one run in a child process
 
 
 def preload():
@@ -612,8 +616,25 @@ def in_child(fn, *args):
         finally:
             os._exit(code)
     os.close(w)
-    with os.fdopen(r, "rb") as f:
-        data = f.read()
+    import select
+    import signal
+    import time
+
+    chunks, deadline = [], time.time() + CHILD_TIMEOUT
+    with os.fdopen(r, "rb", buffering=0) as f:
+        while True:
+            left = deadline - time.time()
+            ready = select.select([f], [], [], max(0.0, left))[0] if left > 0 else []
+            if not ready:  # a call that does not return: never hang the check (exit 2, not a VIOLATION)
+                os.kill(pid, signal.SIGKILL)
+                os.waitpid(pid, 0)
+                raise TimeoutError(f"a call did not return within {CHILD_TIMEOUT} s: {getattr(fn, '__name__', fn)} "
+                                   f"{json.dumps(C.jsonable(args[0]))[:300]}")
+            b = f.read(1 << 16)
+            if not b:
+                break
+            chunks.append(b)
+    data = b"".join(chunks)
     os.waitpid(pid, 0)
     if not data:
         raise RuntimeError("child process died without a result")
